@@ -316,7 +316,7 @@ RULES = {
             ("(handle.format_function)(", "handle.format_function.call("), ("(self.format_function)(", "self.format_function.call("),
             ("(format_function)(", "format_function.call("), ("(self.format)(", "self.format.call(")],
     # R11: std atomics (vstd owns their trivial specs): `.store(` / `.load(` -> shim methods with a permission / an oracle
-    "R11": [(".store(", ".vstore("), (".load(", ".vload(")],
+    "R11": [(".store(", ".vstore("), (".load(", ".vload("), ("AtomicU8::new(", "vatomic_new(")],
     # R4: fn-pointer alias becomes an opaque shim
     "R4": [("FormatFunction", "VFormatFn")],
     # R16: iterator adapters on an owned Vec (provided trait methods: Verus accepts no specification) become eager shims on
@@ -343,6 +343,10 @@ RULES = {
     "R20": [(".into_iter()", ".vinto_iter()")],
     # R19: the fn item `Into::into` as a closure value (argument type `S`, result String) -> a closure with the contract of into()
     "R19": [(".map(Into::into)", ".map(|x: S| -> (r: String) ensures r@ == into_string::<S>(x) { x.into() })")],
+    # R26: `assert_eq!(a, b, "..")` becomes the unit's `vassert_eq!(a, b, "..")` (a call whose precondition is `a == b`)
+    "R26": [("assert_eq!(", "vassert_eq!(")],
+    # R19p: the same for `S: Into<PathBuf>`
+    "R19p": [(".map(Into::into)", ".map(|x: S| -> (r: PathBuf) ensures pathbuf_view(&r) == into_path::<S>(x) { x.into() })")],
     # R18: the fn item `String::len` as a closure value -> a closure with the contract of the prelude's String::len
     "R18": [("map_or(0, String::len)", "map_or(0, |s: &String| -> (r: usize) ensures r == byte_len(s@) { s.len() })")],
     # R17 (computed): `v.iter().map(f).max()` -> shim `v.vmax_map(f)`, `.min()` -> `v.vmin_map(f)`; `m.values().map(f).max()` -> `m.vmax_values_map(f)`
@@ -832,6 +836,8 @@ class Directive:
         self.span_tail = False
         self.span_block = None
         self.bytesconst = False
+        self.execconst = None
+        self.derivedefault = False
 
 
 def indent_of(sf, tokidx):
@@ -1143,14 +1149,43 @@ def render_bytesconst(d, it, repo_root, registry):
     seq = ", ".join("%du8" % b for b in val)
     ind = indent_of(sf, it.first)
     vis = norm_tokens(toks[it.first:it.kw])
-    text = "%s%s open spec fn %s_spec() -> Seq<u8> { seq![%s] }\n" % (ind, vis, it.name, seq)
+    svis = vis if vis.strip() else "pub"   # the generated spec twins of a private const are crate visible (contracts refer to them)
+    text = "%s%s open spec fn %s_spec() -> Seq<u8> { seq![%s] }\n" % (ind, svis, it.name, seq)
     conj = " && ".join(["m.len() == %d" % len(val)] + ["m[%d] == %du8" % (i, b) for i, b in enumerate(val)])
-    text += "%s%s open spec fn %s_is(m: Seq<u8>) -> bool { %s }\n" % (ind, vis, it.name, conj)
+    text += "%s%s open spec fn %s_is(m: Seq<u8>) -> bool { %s }\n" % (ind, svis, it.name, conj)
     text += "%s#[verifier::external_body]\n%s%s exec const %s: &'static [u8]\n%s    ensures %s@ == %s_spec(),\n%s{ %s }\n" % (
         ind, ind, vis, it.name, ind, it.name, it.name, ind, lit)
     registry.append({"mode": "item", "file": os.path.relpath(sf.path, repo_root), "item": d.query, "name": it.name, "line": toks[it.first].line,
                      "rules": {"R5": 1}, "cfg_true": 0, "cfg_false": 0, "clauses": [], "canary": False, "tline": d.tline})
     return [Piece(text, sf, toks[it.first].start)]
+
+
+def render_execconst(d, it, repo_root, registry):
+    """`const NAME: T = <expr>;` -> `exec const NAME: T ensures NAME == <spec> { <expr> }` (initialiser verbatim, checked)"""
+    sf = it.sf
+    toks = sf.toks
+    eq = colon = None
+    for k in range(it.kw, it.end):
+        if toks[k].text == ":" and colon is None:
+            colon = k
+        if toks[k].text == "=" and eq is None:
+            eq = k
+    semi = it.end - 1
+    while semi > 0 and toks[semi].text != ";":
+        semi -= 1
+    if eq is None or colon is None or semi <= eq:
+        raise ExtractError("anchor lost: %s is not a constant with an initialiser" % it.name)
+    ind = indent_of(sf, it.first)
+    vis = norm_tokens(toks[it.first:it.kw])
+    ty = sf.text[toks[colon + 1].start:toks[eq].start].strip()
+    init = sf.text[toks[eq + 1].start:toks[semi].start].strip()
+    label = "%s.value" % it.name
+    props = list(getattr(d, "props", []) or [])
+    registry.append({"mode": "item", "file": os.path.relpath(sf.path, repo_root), "item": d.query, "name": it.name, "line": toks[it.first].line,
+                     "rules": {}, "cfg_true": 0, "cfg_false": 0, "clauses": [("ens", label, props)], "canary": False, "tline": d.tline})
+    return [Piece("%s%s exec const %s: %s\n%s    ensures\n" % (ind, vis, it.name, ty, ind), sf, toks[it.first].start),
+            Piece("%s        %s == %s,\n" % (ind, it.name, d.execconst), label=label),
+            Piece("%s{ %s }\n" % (ind, init), sf, toks[eq + 1].start)]
 
 
 def render_item(d, it, repo_root, registry):
@@ -1161,6 +1196,8 @@ def render_item(d, it, repo_root, registry):
         return render_span(d, it, repo_root, registry)
     if d.bytesconst:
         return render_bytesconst(d, it, repo_root, registry)
+    if d.execconst:
+        return render_execconst(d, it, repo_root, registry)
     sf = it.sf
     toks = sf.toks
     ed = Edits()
@@ -1294,6 +1331,23 @@ def render_item(d, it, repo_root, registry):
         "canary": d.canary, "tline": d.tline,
     })
     out = [Piece(ind, label="indent")] + pieces + [Piece("\n", label="nl")]
+    if d.derivedefault:
+        if it.kind != "enum":
+            raise ExtractError("derivedefault needs an enum: %s" % it.name)
+        var = None
+        k = it.body_open
+        while k < it.body_close:
+            if toks[k].text == "#" and toks[sf.next_sig(k + 1)].text == "[":
+                n = sf.next_sig(k + 1)
+                close = sf.br[n]
+                if norm_tokens(toks[n + 1:close]) == "default":
+                    var = toks[sf.next_sig(close + 1)].text
+                k = close + 1
+            else:
+                k += 1
+        if var is None:
+            raise ExtractError("anchor lost: enum %s marks no variant #[default]" % it.name)
+        out.append(Piece("%simpl Default for %s { fn default() -> (r: Self) ensures r is %s { %s::%s } }\n" % (ind, it.name, var, it.name, var), sf, toks[it.first].start))
     # vacuity twin
     if d.canary and it.kind == "fn" and d.mode == "fn":
         ed2 = Edits()
@@ -1320,7 +1374,7 @@ def render_item(d, it, repo_root, registry):
     return out
 
 
-OPTION_KW = ("ret", "req", "ens", "props", "loop", "closure", "rule", "attr", "dropattr", "canary", "rename", "prefix", "from", "upto", "uptosemi", "before", "tail", "block", "bytesconst", "count")
+OPTION_KW = ("ret", "req", "ens", "props", "loop", "closure", "rule", "attr", "dropattr", "canary", "rename", "prefix", "from", "upto", "uptosemi", "before", "tail", "block", "bytesconst", "count", "execconst", "derivedefault")
 _lab_re = re.compile(r"^(req|ens|inv)(\[([^\]]+)\])?\s+(.*)$", re.S)
 
 
@@ -1437,6 +1491,13 @@ def parse_options(d, lines, unit_name):
             d.span_semi = True
         elif w == "bytesconst":
             d.bytesconst = True
+        elif w == "derivedefault":
+            # for an enum with `#[derive(Default)]`: emit `impl Default` whose value is the variant the source marks `#[default]`
+            d.derivedefault = True
+        elif w == "execconst":
+            # `const NAME: T = <expr>;` becomes `exec const NAME: T ensures NAME == <spec> { <expr> }`: the initialiser is
+            # executable code (a constructor call) that Verus checks against the stated value
+            d.execconst = rest
 
 
 def short_name(query):
